@@ -763,10 +763,12 @@ class TaskJobManager:
         tasks = {}
         for itask in itasks:
             while itask.reload_successor is not None:
-                # Note submit number could be incremented since reload.
+                # Note submit number could be incremented since reload
+                # (on either side: the successor may have started a new
+                # submission while this command was running).
                 subnum = itask.submit_num
                 itask = itask.reload_successor
-                itask.submit_num = subnum
+                itask.submit_num = max(itask.submit_num, subnum)
             if itask.point is not None and itask.submit_num:
                 submit_num = "%02d" % (itask.submit_num)
                 tasks[(str(itask.point), itask.tdef.name, submit_num)] = itask
